@@ -13,6 +13,9 @@ Interpretations (stated):
 * "reports keep arriving": inter-report spacing <= 1 s (1 Hz is the slowest rate of the quantifier).  The upper
   bound is read in its weakest form: once the stream has been continuous *and* unsuppressed for T_GenVamMax
   since the last VAM (or since the stream began), the report arriving then must produce a VAM;
+* a *position report* is a report that carries a position (lat, lon) and a time stamp; other reports create no
+  obligation (a VAM they trigger must still obey the spacing and low-frequency rules) and do not count as
+  "reports keep arriving";
 * the minimum spacing is measured on the time stamps of the reports that triggered the two VAMs (reports
   without a time stamp are not measured);
 * the low-frequency rule is one-sided for VAMs (the statement has no "and none in between" clause); "generated at"
@@ -49,20 +52,13 @@ class VamRules:
         self.prev_report_ms = None
 
     def cause(self, report):
-        """Which dynamics differ from the last VAM's report (used to classify too-close VAMs)."""
+        """Classify a VAM against the last VAM's report: which dynamics changed (as far as both reports carry them) and
+        whether the last VAM lacked a quantity the current report carries (the reference is then an 'unavailable' code)."""
         ref = self.last_vam_report or {}
-        c = []
-        for f in ("speed", "track", "lat", "lon"):
-            if f in report and f not in ref:
-                c.append("ref_" + f + "_unavailable")
-        if "speed" in report and "speed" in ref and abs(report["speed"] - ref["speed"]) > 0.5:
-            c.append("speed")
-        if "track" in report and "track" in ref and _hdiff(report["track"], ref["track"]) > 4.0:
-            c.append("heading")
-        if all(k in report and k in ref for k in ("lat", "lon")) and (
-                abs(report["lat"] - ref["lat"]) > 1e-7 or abs(report["lon"] - ref["lon"]) > 1e-7):
-            c.append("position")
-        return "+".join(c) if c else "none"
+        return dict(
+            speed_changed="speed" in report and "speed" in ref and abs(report["speed"] - ref["speed"]) > 0.5,
+            heading_changed="track" in report and "track" in ref and _hdiff(report["track"], ref["track"]) > 4.0,
+            ref_unavailable=any(f in report and f not in ref for f in ("speed", "track", "lat", "lon")))
 
     def on_report(self, ms, report: dict, report_ts, vams):
         """A report delivered at virtual ``ms``; ``vams`` = decoded VAMs emitted while it was processed."""
@@ -71,12 +67,16 @@ class VamRules:
             if vams:
                 out.append(dict(kind="vam_while_suppressed", count=len(vams)))
             return out
-        if self.prev_report_ms is None or ms - self.prev_report_ms > MAX_REPORT_PERIOD:
-            self.stream_start_ms = ms
-        self.prev_report_ms = ms
+        usable = all(k in report for k in ("time", "lat", "lon"))     # a *position report*: position and time stamp
+        if usable:
+            if self.prev_report_ms is None or ms - self.prev_report_ms > MAX_REPORT_PERIOD:
+                self.stream_start_ms = ms
+            self.prev_report_ms = ms
         if len(vams) > 1:
             out.append(dict(kind="vam_multiple_for_one_report", count=len(vams)))
         if not vams:
+            if not usable:
+                return out
             if not self.first_done:
                 out.append(dict(kind="vam_first_missing"))
             else:
@@ -88,7 +88,7 @@ class VamRules:
         if self.first_done and report_ts is not None and self.last_vam_ts is not None:
             spacing = report_ts - self.last_vam_ts
             if spacing < T_GEN_VAM_MIN:
-                out.append(dict(kind="vam_too_close", spacing_ms=spacing, cause=self.cause(report)))
+                out.append(dict(kind="vam_too_close", spacing_ms=spacing, **self.cause(report)))
         has_lf = "vruLowFrequencyContainer" in vam["vam"]["vamParameters"]
         if not has_lf:
             if not self.first_done:
